@@ -42,6 +42,26 @@ def cases(draw, tier="quick"):
         cfg = gen.Cfg()
     g = gen.G(draw, env, cfg)
     recipe = g.S(draw(st.integers(1, 5 if big else 4)))
+    if draw(st.integers(0, 6)) == 0:
+        # a reduction over a heterogeneous vector expression: element degrees differ, highest not first
+        pool = [g.var_leaf(), ["bin", "**", g.var_leaf(), ["const", "pyint", 2]], ["bin", "**", g.var_leaf(), ["const", "pyint", 3]],
+                ["bin", "*", ["const", "pyfloat", 2.0], g.var_leaf()], ["bin", "**", g.var_leaf(), ["const", "pyint", 4]]]
+        if not polyish:
+            pool.append(["un", "sin", g.var_leaf()])
+        k = draw(st.integers(2, 4))
+        items = [draw(st.sampled_from(pool)) for _ in range(k)]
+        V = ["vexpr", items]
+        how = draw(st.sampled_from(["lincomb", "dot", "quad", "dotself"]))
+        if how == "lincomb":
+            recipe = ["lincomb", [draw(st.sampled_from([1, 2, -1])) for _ in range(k)], V, draw(st.sampled_from(["c@x", "x@c", "LinearCombination"]))]
+        elif how == "dot":
+            recipe = ["dot", V, ["vexpr", [g.var_leaf() for _ in range(k)]], "dot"]
+        elif how == "dotself":
+            recipe = ["dotself", V, "dot"]
+        else:
+            recipe = ["quad", V, g.matrix_data(k, k), "quadratic_form"]
+        if draw(st.booleans()):
+            recipe = ["bin", "+", recipe, g.var_leaf()]
     allv = all_var_names(env)
     lines = []
     for _ in range(3):
